@@ -7,7 +7,8 @@
    schedules ([reachable] is closed under every step of every stage).  The
    second group is about the DSL instance of model/C18.v, whose value-channel
    capacity is pkg/eval's pipelineChanBufferSize. *)
-From verif Require Import lib.Base lib.C18_Lts model.C18 proofs.C18_lts_proofs proofs.C18_proofs.
+From verif Require Import lib.Base lib.C18_Lts model.C18 proofs.C18_lts_proofs proofs.C18_proofs
+  proofs.C18_det_proofs.
 Open Scope nat_scope.
 
 Section Generic.
@@ -155,6 +156,34 @@ Theorem C18_dsl_allowed_complete : forall p capB s,
   1 <= capB -> preachable p capB s -> pdone p s -> allowed p (pobs p s) = true.
 Proof. exact dsl_allowed_complete. Qed.
 Print Assumptions C18_dsl_allowed_complete.
+
+
+(* Read-to-end pipelines are deterministic.  When every stage has the shape
+   `sends ; each {forward what the filter keeps} ; sends` (det_pipeline), two
+   finished runs — whatever the schedules, whatever the byte-pipe capacities —
+   agree on everything every stage received and wrote on each band, and no stage
+   ends with an exception.  (Stage 0's `each` sees the empty input at once, so a
+   plain producer is the special case with nothing after the drain.) *)
+Theorem C18_deterministic_when_read_to_end : forall dp capB1 capB2 s1 s2,
+  1 <= capB1 -> 1 <= capB2 ->
+  preachable (det_pipeline dp) capB1 s1 -> pdone (det_pipeline dp) s1 ->
+  preachable (det_pipeline dp) capB2 s2 -> pdone (det_pipeline dp) s2 ->
+  forall k, k < length dp ->
+    fin (stg s1 k) = Some None /\ fin (stg s2 k) = Some None /\
+    forall b, gots b (hist (stg s1 k)) = gots b (hist (stg s2 k)) /\
+              sents b (hist (stg s1 k)) = sents b (hist (stg s2 k)).
+Proof. exact deterministic_when_read_to_end. Qed.
+Print Assumptions C18_deterministic_when_read_to_end.
+
+(* … and what they agree on is the data-flow function of the pipeline. *)
+Theorem C18_read_to_end_flow : forall dp capB,
+  1 <= capB -> forall s, preachable (det_pipeline dp) capB s -> pdone (det_pipeline dp) s ->
+  forall k, k < length (det_pipeline dp) ->
+    fin (stg s k) = Some None /\
+    forall b, gots b (hist (stg s k)) = flow_in dp k b /\
+              sents b (hist (stg s k)) = flow_out dp k b.
+Proof. exact det_flow. Qed.
+Print Assumptions C18_read_to_end_flow.
 
 (* ---- non-vacuity: runs of concrete pipelines under concrete schedules ---- *)
 Definition ex_p1 : pipeline :=
